@@ -81,6 +81,29 @@ func (p storeParams) freshConfig(dir string) (*comet.StorageConfig, error) {
 			}
 		}
 		cfg.VectorIndexTemplate = x
+	case "pq", "ivfpq":
+		// quantising templates (M = 1 sub-space, 4-bit codes), trained before Open like the ivf one; scores are
+		// approximate, but every live vector is returned for k beyond the corpus (PQ scans everything, IVFPQ is searched
+		// at full probe), which is all the store monitors ask of them
+		var x comet.VectorIndex
+		var err error
+		if p.VecKind == "pq" {
+			x, err = comet.NewPQIndex(p.Dim, p.Metric, 1, 4)
+		} else {
+			x, err = comet.NewIVFPQIndex(p.Dim, p.Metric, p.Nlist, 1, 4)
+		}
+		if err != nil {
+			return nil, err
+		}
+		nodes := make([]comet.VectorNode, len(p.ivfTrain))
+		for i, v := range p.ivfTrain {
+			nodes[i] = *comet.NewVectorNodeWithID(uint32(i+1), cloneF32(v))
+		}
+		if err := x.Train(nodes); err != nil {
+			return nil, err
+		}
+		scribbleOver(nodes)
+		cfg.VectorIndexTemplate = x
 	}
 	if p.Text {
 		cfg.TextIndexTemplate = comet.NewBM25SearchIndex()
@@ -154,7 +177,7 @@ func searchAllModalities(s comet.HybridSearchIndex, p storeParams) storeAnswers 
 		q := make([]float32, p.Dim)
 		q[0] = 1
 		x := s.NewSearch().WithVector(q).WithK(bigK)
-		if p.VecKind == "ivf" {
+		if p.VecKind == "ivf" || p.VecKind == "ivfpq" {
 			x = x.WithNProbes(p.Nlist)
 		}
 		if p.VecKind == "hnsw" {
